@@ -237,6 +237,38 @@ SPECS["C16"].assumptions = SPECS["C16"].assumptions + [
     "real-time stage (thorough tier; also run as a search when the generated ticker/cut-off obligations break): eight concurrent "
     "processors, second half 30-50 s (must correlate) or 130 s (must have been discarded) after the first, silence or unrelated traffic every 7-20 s"]
 
+# C03 through the daemon's own wiring: logins on Auditd.Logins || audit lines on Auditd.Audits of the REAL Auditd.Read, forced
+# single-preemption schedules at the GenericSyncMap lock points (victim: Read's loop goroutine inside RemoteLogin, or the parser
+# goroutine inside the reassembler callback), race detector, one child process per case
+SPECS["C03"].thorough_extra = SPECS["C03"].thorough_extra + [
+    ("auditproc", AUDITPROC_OVERLAY, ["-mode", "conc", "-n", "256"], True, ["-mode", "conc", "-n", "32"])]
+SPECS["C03"].assumptions = SPECS["C03"].assumptions + [
+    "wiring stage (auditproc -mode conc): the correlator is reached through Auditd.Read (which object each goroutine is handed is part of the run); "
+    "one forced preemption per case, the other goroutine gets 120 ms to complete its racing deliveries while the victim is paused (on a tree whose "
+    "correlator calls exclude each other it blocks and the victim is released after that time); cleanup ticks (one-minute ticker inside Read) are not "
+    "driven here (C16's real-time stage does); oracle: per session every event exactly once, in order, with its login's identity"]
+
+# C08 at package level: the real Auditd.Read must return on cancellation / an invalid login / an event write failure while
+# producers keep its Audits channel non-empty before, during and after the fault
+SPECS["C08"].thorough_extra = SPECS["C08"].thorough_extra + [
+    ("auditproc", AUDITPROC_OVERLAY, ["-mode", "cancelfull", "-n", "4"], False, ["-mode", "cancelfull", "-n", "1"])]
+SPECS["C08"].assumptions = SPECS["C08"].assumptions + [
+    "binary scenarios: every processor-local failure cause (audit-side write failure after the login was recorded, invalid login) also under sustained "
+    "audit load whose writer keeps writing after the fault; package-level stage (auditproc -mode cancelfull): Auditd.Read returns within 2 s of "
+    "cancellation / invalid login / write failure while 2-3 producers keep its Audits channel (capacity 0, 1, 64, 10000) non-empty",
+    "Gen/Blocking.v: a non-blocking select (default arm, no ctx.Done() arm) repeated by a loop that does not itself look at the context is an unguarded row "
+    "(busy loop that ends only when the channel is momentarily empty)"]
+
+# C07, auditd half on the daemon's own path: every generated audit record bare / with its terminator through the real
+# parseAuditLogs, and through a real FIFO + named-pipe ingester + audit-log ingester; record lengths swept densely
+SPECS["C07"].thorough_extra = SPECS["C07"].thorough_extra + [
+    ("auditproc", AUDITPROC_OVERLAY, ["-mode", "frame", "-n", "1500", "-dense"], False, ["-mode", "frame", "-n", "150"])]
+SPECS["C07"].assumptions = SPECS["C07"].assumptions + [
+    "auditd half (stage auditproc -mode frame): the reference message of a record is what go-libaudit's parser yields for the bare record; "
+    "the real parseAuditLogs must push exactly that message for the bare record, for the record with its terminator, and for the record "
+    "written into a real FIFO read by the real ingesters; every total length from a template's shortest record to 16 KiB + 512 "
+    "(a blank line is not an audit record and is not generated)"]
+
 reg(Spec("C15", "Props/C15.v", harness="auditproc", overlay=AUDITPROC_OVERLAY,
     args_quick=["-n", "150"], args_thorough=["-n", "2000"], args_search=["-n", "1200"],
     assumptions=[
